@@ -241,6 +241,11 @@ class WebSocketServer(websocket.WebSocketServerProtocol):
         except CrowdedError:
             raise Error("crowded")
         def _send(sm):
+            if self.state != self.STATE_OPEN:
+                # our closing handshake has begun but onClose has not fired
+                # yet: sendMessage would raise Disconnected into the sender's
+                # add and cut the broadcast short for the other listeners
+                return
             self.send("message", side=sm.side, phase=sm.phase,
                       body=sm.body, server_rx=sm.server_rx, id=sm.msg_id)
         def _stop():
